@@ -43,6 +43,9 @@ pub enum Simple {
     ClrMs,
     #[form(tag = "send")]
     Send { node: String, lane: String, value: i32, ow: bool },
+    /// send to a lane on a remote host: all lanes of one host share one output channel
+    #[form(tag = "sendh")]
+    SendH { host: String, node: String, lane: String, value: i32, ow: bool },
     #[form(tag = "fail")]
     Fail,
 }
@@ -252,6 +255,13 @@ impl TestLifecycle {
                 Simple::ClrMs => Box::new(context.clear(TestAgent::MS)),
                 Simple::Send { node, lane, value, ow } => {
                     let addr = Address::new(None, node.clone(), lane.clone());
+                    Box::new(
+                        SendCommand::new(addr, value, ow)
+                            .followed_by(context.effect(move || log.push(Truth::Sent { node, lane, value, ow }))),
+                    )
+                }
+                Simple::SendH { host, node, lane, value, ow } => {
+                    let addr = Address::new(Some(host.clone()), node.clone(), lane.clone());
                     Box::new(
                         SendCommand::new(addr, value, ow)
                             .followed_by(context.effect(move || log.push(Truth::Sent { node, lane, value, ow }))),
